@@ -247,7 +247,10 @@ def model_for(ctx: Any, m: dict[str, Any], n_inputs: int | None) -> dict[str, An
     if init != "ok":
         ev = svcgen.exc_view(init["raise"])
         err = ["error", ev["type"], f"{ev['type']}: {ev['text']}", ev["kind"]]
-        return {"pipe": [err], "sem": [err]}
+        # sockets: the init error of a header-less stream is read with the first output; a session that is closed
+        # without ever reading never sees it (close() drains best-effort) — see known finding C01:init-error-unread
+        unread = (not m.get("header")) and n_inputs == 0
+        return {"pipe": [] if unread else [err], "sem": [err]}
     steps = m["steps"]
     if m["kind"] == "exchange":
         assert n_inputs is not None
@@ -286,7 +289,7 @@ def check_one(ctx: Any, desc: dict[str, Any], script: list[list[Any]]) -> None:
             n_inputs.append(None)
         elif op[0] == "open":
             cnt = 0
-        elif op[0] == "send":
+        elif op[0] in ("send", "iter", "tick"):
             cnt += 1
         elif op[0] == "close":
             n_inputs.append(cnt)
@@ -323,6 +326,14 @@ def check_one(ctx: Any, desc: dict[str, Any], script: list[list[Any]]) -> None:
         for i, ((n1, e1), (_n2, e2)) in enumerate(zip(results[base], results[lab])):
             if obs_of(e1) != obs_of(e2):
                 kind = by_name[n1]["kind"]
+                m1 = by_name[n1]
+                if (m1.get("init", "ok") != "ok" and not m1.get("header") and n_inputs[i] == 0
+                        and upto_first_error(e1) == [] and [e[0] for e in upto_first_error(e2)] == ["error"]):
+                    ctx.fail({"service": desc, "script": script, "transports": [base, lab], "call_index": i, "method": n1},
+                             "C01:init-error-unread:socket-close-without-read",
+                             f"header-less stream {n1} fails at init; opened and closed without a read: sockets observe nothing, "
+                             f"{lab} raises {upto_first_error(e2)[0][1]} at open")
+                    break
                 what = "logs" if obs_of(e1)["logs"] != obs_of(e2)["logs"] else ("datas" if obs_of(e1)["datas"] != obs_of(e2)["datas"] else "terminal")
                 ctx.fail({"service": desc, "script": script, "transports": [base, lab], "call_index": i, "method": n1},
                          f"C01:differs:{kind}:{what}:{'http' if 'http' in lab else 'socket'}",
